@@ -23,7 +23,7 @@ inductive Schema
   | scalar (k : Kind)
   | seq (member : Schema)                                   -- List / Array
   | dict (policy : Policy) (names : List Str) (fields : List Schema)
-  | date                                                    -- DateYYYYMMDD, generated members
+  | date (ky km kd : Kind)                                  -- DateYYYYMMDD and the kinds of its three Integer members
   | joined (sep : Str) (sp : Splitter) (prune : Bool) (member : Kind)   -- JoinedString
   deriving Inhabited
 
@@ -58,7 +58,7 @@ def blank : Schema → Elem
   | .scalar _ => .scalar blankState
   | .seq _ => .seq []
   | .dict _ _ fields => .dict (blankL fields)            -- `_reset()`
-  | .date => .date blankState blankState blankState
+  | .date .. => .date blankState blankState blankState
   | .joined .. => .joined []
 def blankL : List Schema → List Elem
   | [] => []
@@ -166,9 +166,7 @@ def setElem (E : Env) : Schema → Elem → Input → Except CRaise SetOut
           let calls := mergeCalls runs pairs.length
           let flag := calls.all (·.1)
           .ok ⟨.dict (runs.map (·.2.elem)), flag, (calls.flatMap (·.2)) ++ [([], flag)]⟩
-  | .date, old, inp =>
-    let yk := Kind.integer true 4
-    let mk := Kind.integer true 2
+  | .date yk mk dk, old, inp =>
     match inp with
     | .leaf x =>
       -- explode: `value = Date.adapt(self, value)`
@@ -182,7 +180,7 @@ def setElem (E : Env) : Schema → Elem → Input → Except CRaise SetOut
           | some (.date y m d) => (.int y, .int m, .int d)
           | some (.datetime y m d _ _ _ _) => (.int y, .int m, .int d)
           | _ => (.none, .none, .none)                          -- AdaptationError: set(None) each
-        match setScalar E yk parts.1, setScalar E mk parts.2.1, setScalar E mk parts.2.2 with
+        match setScalar E yk parts.1, setScalar E mk parts.2.1, setScalar E dk parts.2.2 with
         | .ok a, .ok b, .ok c =>
           .ok ⟨.date a.st b.st c.st, true,
                prefixSigs 0 (a.signals.map fun b => ([], b)) ++ prefixSigs 1 (b.signals.map fun b => ([], b)) ++
